@@ -79,7 +79,13 @@ Clauses ==
    C13_QueueSound |-> C13_QueueSound(st),
    C13_QueueComplete |-> C13_QueueComplete(st),
    C13_OnceOnTime |-> C13_OnceOnTime(pre, ev, st, gh),
-   C13_NoHalt |-> C13_NoHalt(ev)]
+   C13_NoHalt |-> C13_NoHalt(ev),
+   X03_CreateRecord |-> X03_CreateRecord(pre, ev, st),
+   X04_Admission |-> X04_Admission(pre, ev, st),
+   X04_InFlight |-> X04_InFlight(pre, ev),
+   X04_ParamsStored |-> X04_ParamsStored(pre, ev, st),
+   X12_HTLC_Queue |-> X12_HTLC_Queue(st),
+   X12_HTLC_ZeroQueue |-> X12_HTLC_ZeroQueue(st)]
 
 Failing == IF ev.name = "Init" \/ ev.halt
            THEN (IF ev.halt THEN {"C13_NoHalt"} ELSE {})
@@ -117,7 +123,10 @@ ExNames ==
    "claim_after_refund", "claim_in_expiry_block", "claim_last_block", "claim_in_rej",
    "refund_plain", "refund_in", "refund_out", "refund_many", "refund_none_due",
    "window_reset", "window_accum", "limit_rej", "time_limit_rej", "params_update",
-   "limit_after_update", "asset_removed_inflight", "skip", "reject", "claim_to_module"}
+   "limit_after_update", "asset_removed_inflight", "skip", "reject", "create_to_module_rej",
+   "refund_dozens", "dt_zero", "dt_beyond_period", "inactive_rej", "amount_range_rej", "asset_lock_range_rej",
+   "below_fee_rej", "changed_inflight", "deputy_changed_inflight", "claim_inactive_ok", "refund_unsupported",
+   "claim_new_deputy"}
 
 Exercised ==
   {c \in ExNames :
@@ -167,7 +176,40 @@ Exercised ==
             ev.name = "UpdateParams" /\ ev.ok /\ \E i \in Ids(pre) :
                pre.htlc[i].state = "open" /\ pre.htlc[i].transfer
                /\ DOMAIN pre.htlc[i].amt \cap DOMAIN st.params = {}
-       [] c = "claim_to_module" -> LET P(x) == ~x.transfer /\ x.to = MOD IN ev.ok /\ ClaimOn(P)
+       [] c = "create_to_module_rej" -> ev.name = "Create" /\ ev.to = MOD /\ ~ev.ok
+       [] c = "refund_dozens" -> ev.name = "BeginBlock" /\ Cardinality(RefundedNow) >= 24
+       [] c = "dt_zero" -> ev.name = "BeginBlock" /\ ev.dt = 0 /\ DOMAIN pre.params # {}
+       [] c = "dt_beyond_period" ->
+            ev.name = "BeginBlock" /\ \E d \in DOMAIN pre.params :
+               pre.params[d].timeLimited /\ pre.params[d].period > 0 /\ ev.dt >= 3 * pre.params[d].period
+               /\ d \in DOMAIN pre.sup /\ pre.sup[d].tl > 0
+       [] c = "inactive_rej" -> ev.name = "Create" /\ ~ev.ok /\ Apply(pre, ev).why = "inactive"
+       [] c = "amount_range_rej" -> ev.name = "Create" /\ ~ev.ok /\ Apply(pre, ev).why = "amount_range"
+       [] c = "asset_lock_range_rej" -> ev.name = "Create" /\ ~ev.ok /\ Apply(pre, ev).why = "asset_lock_range"
+       [] c = "below_fee_rej" -> ev.name = "Create" /\ ~ev.ok /\ Apply(pre, ev).why = "below_fee"
+       [] c = "changed_inflight" ->
+            ev.name = "UpdateParams" /\ ev.ok /\ \E i \in Ids(pre) :
+               LET x == pre.htlc[i] IN
+               x.state = "open" /\ x.transfer
+               /\ \E d \in DOMAIN x.amt : d \in DOMAIN pre.params /\ d \in DOMAIN st.params
+                     /\ [pre.params[d] EXCEPT !.limit = 0, !.tbl = 0, !.period = 0, !.timeLimited = FALSE]
+                        # [st.params[d] EXCEPT !.limit = 0, !.tbl = 0, !.period = 0, !.timeLimited = FALSE]
+       [] c = "deputy_changed_inflight" ->
+            ev.name = "UpdateParams" /\ ev.ok /\ \E i \in Ids(pre) :
+               LET x == pre.htlc[i] IN
+               x.state = "open" /\ x.transfer
+               /\ \E d \in DOMAIN x.amt : d \in DOMAIN pre.params /\ d \in DOMAIN st.params
+                     /\ pre.params[d].deputy # st.params[d].deputy
+       [] c = "claim_inactive_ok" ->
+            LET P(x) == x.transfer /\ \E d \in DOMAIN x.amt : d \in DOMAIN pre.params /\ ~pre.params[d].active
+            IN ev.ok /\ ClaimOn(P)
+       [] c = "refund_unsupported" ->
+            \E i \in RefundedNow : pre.htlc[i].transfer /\ \E d \in DOMAIN pre.htlc[i].amt :
+               d \notin DOMAIN pre.params \/ ~pre.params[d].active
+       [] c = "claim_new_deputy" ->
+            LET P(x) == x.transfer /\ \E d \in DOMAIN x.amt : d \in DOMAIN pre.params
+                           /\ pre.params[d].deputy \notin {x.sender, x.to}
+            IN ev.ok /\ ClaimOn(P)
        [] c = "skip" -> ev.name = "Skip"
        [] c = "reject" -> ev.name \in MsgEvents /\ ~ev.ok}
 Coverage == (ev.name = "Init" \/ Exercised = {}) \/ PrintT(<<"EXERCISED", Exercised>>)
